@@ -31,6 +31,7 @@ structure Mess where
   payload : Option Nat := none     -- payload_
   hasBuf : Bool := false           -- dst_buff_ != nullptr
   delivered : Option Nat := none   -- what `*(void**)dst_buff_ = payload_` wrote
+  writes : Nat := 0                -- ghost: how many times `*(void**)dst_buff_ = payload_` was executed
   detached : Bool := false         -- detached_
   putEv : Option Nat := none       -- ghost: index of the iput call that filled src_actor_/payload_
   getEv : Option Nat := none       -- ghost: index of the iget call that filled dst_actor_/dst_buff_
@@ -57,7 +58,17 @@ def findMatching (t : MType) : List Mess → Option (Mess × List Mess)
     `if RUNNING then DONE; … if (DONE && payload_ != nullptr && dst_buff_ != nullptr) *(void**)dst_buff_ = payload_;` -/
 def Mess.finish (m : Mess) : Mess :=
   let m := { m with state := .done }
-  if m.payload.isSome && m.hasBuf then { m with delivered := m.payload } else m
+  if m.payload.isSome && m.hasBuf then { m with delivered := m.payload, writes := m.writes + 1 } else m
+
+/-- `finish()` called again on an object that already left the queue: `ActivityImpl::wait_for` and `ActivityImpl::test`
+    call `finish()` whenever `state_ != WAITING && state_ != RUNNING`.  MessImpl has no `copied_` flag (CommImpl has one):
+    `if (get_state() == State::DONE && payload_ != nullptr && dst_buff_ != nullptr) *(void**)(dst_buff_) = payload_;`
+    is executed again by every later wait()/test() of either side — also after the getter has returned and its buffer
+    (a local of `MessageQueue::get<T>()`) is gone.
+    AFTER THE PROPOSED FIX (props/C09/proposed_fix.diff: `dst_buff_ = nullptr` once copied) this becomes `m`. -/
+def Mess.refinish (m : Mess) : Mess :=
+  if m.state = .done && m.payload.isSome && m.hasBuf then { m with delivered := m.payload, writes := m.writes + 1 }
+  else m
 
 /-- `MessImpl::iput(observer)`; returns the new state and the id of the object returned in `observer->set_message`. -/
 def iput (s : MQ) (a pl : Nat) (det : Bool) : MQ × Nat :=
@@ -92,17 +103,24 @@ def cancel (s : MQ) (id : Nat) : MQ :=
                 fin := { m with state := .canceled } :: s.fin }
   | none => { s with next := s.next + 1 }
 
+/-- `wait_for` / `test` on the object `id` when it is not queued any more (DONE or CANCELED): `finish()` runs again.
+    (On a queued, WAITING object they only register / answer the simcall: no step of the queue.) -/
+def refinish (s : MQ) (id : Nat) : MQ :=
+  { next := s.next + 1, queue := s.queue, fin := s.fin.map (fun m => if m.id == id then m.refinish else m) }
+
 /-- kernel calls on one message queue -/
 inductive Ev where
   | iput (a pl : Nat) (det : Bool)
   | iget (a : Nat) (buf : Bool)
   | cancel (id : Nat)
+  | refinish (id : Nat)
   deriving DecidableEq, Repr
 
 def step (s : MQ) : Ev → MQ
   | .iput a pl det => (iput s a pl det).1
   | .iget a buf => (iget s a buf).1
   | .cancel id => cancel s id
+  | .refinish id => refinish s id
 
 def run (h : List Ev) : MQ := h.foldl step {}
 
